@@ -64,18 +64,18 @@ class GCMAlgorithmCustomMotifs(GCMAlgorithm):
 
                 # build the motif edges from the vertices
                 es: list = self._build_functions[j](vertices)
+                names = self._edge_names[j]()
 
-                # get the motif id
+                if len(es) == 2 and not isinstance(es[0], (tuple, list)):
+                    # a single-edge motif returned as the bare edge (u, v) annoyingly
+                    # unpacks ... so re-pack it (and its name) as a one-entry list
+                    es = [es]
+                    names = [names] if isinstance(names, str) else list(names)
+
+                # get the motif id and advance the three columns together
                 id = next(gen)
+                EdgeList.edge_list.extend(es)
+                EdgeList.topologies.extend(names)
                 EdgeList.motif_id.extend([id] * len(es))
-
-                if len(es) == 2:
-                    # if 2-clique tuple annoyingly unpacks ... so re-pack it
-                    EdgeList.edge_list.extend([es])
-                    EdgeList.topologies.extend([self._edge_names[j]()])
-
-                else:
-                    EdgeList.edge_list.extend(es)
-                    EdgeList.topologies.extend(self._edge_names[j]())
 
         return EdgeList
